@@ -39,6 +39,14 @@
       written with `store_dictionary` (there the written group is the model's `store` of the record).  Tie hypotheses kept
       visible: the class table of the loader's world (`hkl`: the written name is a class with keywords `ctorKw`), distinct
       keywords, the type key is not a constructor keyword.
+    * the same round trips for the remaining components (`src_star_roundtrip`, `src_planet_roundtrip`,
+      `src_pressure_roundtrip`, `src_simplepressure_roundtrip`, `src_constantgas_roundtrip`, `src_twolayergas_roundtrip`,
+      `src_twopointgas_roundtrip`, `src_powergas_roundtrip`, `src_contribution_roundtrip` (absorption / Rayleigh),
+      `src_simpleclouds_roundtrip`, `src_flatmie_roundtrip`, `src_cia_roundtrip`): regenerated `Star.write`,
+      `BasePlanet.write`, `PressureProfile.write`, `SimplePressureProfile.write`, `Gas.write` + subclasses,
+      `Contribution.write` + subclasses against the regenerated `load_star_from_hdf5`, `load_planet_from_hdf5`,
+      `load_pressure_from_hdf5`, `load_gas_from_hdf5`, `load_contrib_from_hdf5`.  Scalars are any Python scalar
+      (`Scalar`), `x/CONST` is the writer world's `div` on the attribute and the module constant (`consts`, non-zero).
 
   Not restated (no tie)
     * `canon_wf`: about the specification `canon` alone.  `load_store_eq`: the equation form of `load_store` (restated).
@@ -523,6 +531,342 @@ theorem src_transmission_model_roundtrip (ww : WWorld α) (hww : WWorldOK ww) (w
     have e7 := f.hmtype
     simp [modelGroup, List.lookup] at e1 e2 e3 e4 e5 e6 e7
     exact ⟨e1.symm, e2.symm, e3.symm, e4.symm, e5.symm, e6.symm, e7.symm, src_load_model wl _ f⟩
+
+/-! ### star, planet, pressure profile, gas profiles, contributions -/
+
+/-- a component record written under the group `name` with its class name under `typeKey` and entries that are scalars,
+    arrays of dimension ≥ 1 and strings (`WfLeaf`): it is stored as one group whose content the loader accepts -/
+theorem typed_written (wl : LWorld α) (name typeKey : String) (c : List Nat) (entries : List (String × Value α))
+    (ctorKw : List String) (hl : ∀ e ∈ entries, WfLeaf e.2) (hk : ∀ kw ∈ ctorKw, kw ≠ typeKey)
+    (hkl : wl.klassOf c = some ctorKw) (hn : ctorKw.Nodup) :
+    ∃ ch, storeThing name (writeComponent typeKey c entries) = .ok [(name, .group ch)] ∧
+      ch.lookup typeKey = some (.vstr c) ∧ Reloadable wl ch c ctorKw ∧
+      loadKwargs ch ctorKw = ctorKw.filterMap (fun kw => (entries.lookup kw).map (fun v => (kw, v))) := by
+  have hwf := wfEntries_wfl entries hl
+  have hwf' : wfVal (writeComponent typeKey c entries) = true := by
+    simp [writeComponent, wfVal, wfEntries, hwf]
+  obtain ⟨n, hst, -⟩ := storeThing_wf name _ hwf'
+  obtain ⟨ch, he, htype, hr, hkw⟩ := written_reloadable wl typeKey c entries ctorKw hwf (notDict_wfl entries hl) hk
+    name _ hst hkl hn
+  exact ⟨ch, by rw [hst, he], htype, hr, hkw⟩
+
+/-- a dictionary (no type string: a contribution's group) written under the group `name` with `WfLeaf` entries -/
+theorem untyped_written (wl : LWorld α) (name : String) (c : List Nat) (entries : List (String × Value α))
+    (ctorKw : List String) (hl : ∀ e ∈ entries, WfLeaf e.2) (hkl : wl.klassOf c = some ctorKw) (hn : ctorKw.Nodup) :
+    ∃ ch, storeThing name (.dict entries) = .ok [(name, .group ch)] ∧ Reloadable wl ch c ctorKw ∧
+      loadKwargs ch ctorKw = ctorKw.filterMap (fun kw => (entries.lookup kw).map (fun v => (kw, v))) := by
+  obtain ⟨ch, hc, hld, -⟩ := storeEntries_wf entries (wfEntries_wfl entries hl)
+  refine ⟨ch, by rw [storeThing_dict, hc], ⟨hkl, hn, ?_⟩, by rw [loadKwargs_eq, hld]⟩
+  intro kw hkw n hlk
+  cases n with
+  | group g =>
+    exfalso
+    have h3 : (loadEntries ch).lookup kw = some (.dict (loadEntries g)) := by
+      rw [lookup_loadEntries, hlk]; simp [load]
+    rw [hld] at h3
+    have := notDict_wfl entries hl _ (lookup_mem h3)
+    simp [isDict] at this
+  | _ => rfl
+
+section
+variable (ww : WWorld α) (hww : WWorldOK ww) (wl : LWorld α) (c : List Nat) (attr : String → Option (Value α))
+  (part : String → Option (SubComp α)) (ctorKw : List String) (hkl : wl.klassOf c = some ctorKw) (hn : ctorKw.Nodup)
+  (q : List String) (s : Log α)
+include hww hkl hn
+
+/-- **write → load round trip of `Star` / `BlackbodyStar`**, both sides regenerated: `Star.write` creates one group `Star`
+    (`ch`), and `load_star_from_hdf5` on any file holding that group calls the class of the written name with those of the
+    written entries (temperature, radius and mass in solar units, distance, K magnitude, metallicity, …) that are
+    constructor keywords, in constructor order -/
+theorem src_star_roundtrip (hk : ∀ kw ∈ ctorKw, kw ≠ "star_type") (T D mK met R : Value α) (r m rsol msol : α)
+    (sed : Arr α) (hT : Scalar T) (hD : Scalar D) (hmK : Scalar mK) (hmet : Scalar met) (hR : Scalar R)
+    (hsed : (sed.shape != []) = true)
+    (h1 : attr "temperature" = some T) (h2 : attr "_radius" = some (.float r)) (h3 : attr "distance" = some D)
+    (h4 : attr "_mass" = some (.float m)) (h5 : attr "magnitudeK" = some mK) (h6 : attr "_metallicity" = some met)
+    (h7 : attr "radius" = some R) (h8 : attr "spectralEmissionDensity" = some (.array sed))
+    (hc1 : ww.consts "RSOL" = some rsol) (hc2 : ww.consts "MSOL" = some msol)
+    (hz1 : FloatLike.isZero rsol = false) (hz2 : FloatLike.isZero msol = false) :
+    ∃ ch, SrcC16.star_write ww.ext (.obj (.comp c attr part)) (.obj (.group q)) s
+        = (.ok (.obj (.group (q ++ ["Star"]))), s ++ flat q [("Star", .group ch)]) ∧
+      ∀ top : List (String × Node α), top.lookup "Star" = some (.group ch) →
+        SrcC16.load_star wl.ext (.obj (.h5 top)) .none
+          = wl.call (.klass c ctorKw) []
+              (embKwL wl.enc (ctorKw.filterMap (fun kw =>
+                ([("temperature", T), ("radius", .float (ww.div r rsol)), ("distance", D),
+                  ("mass", .float (ww.div m msol)), ("magnitudeK", mK), ("metallicity", met), ("radius_m", R),
+                  ("SED", .array sed), ("mass_kg", .float m)].lookup kw).map (fun v => (kw, v))))) := by
+  obtain ⟨ch, hst, htype, hr, hkw⟩ := typed_written wl "Star" "star_type" c
+    [("temperature", T), ("radius", .float (ww.div r rsol)), ("distance", D), ("mass", .float (ww.div m msol)),
+     ("magnitudeK", mK), ("metallicity", met), ("radius_m", R), ("SED", .array sed), ("mass_kg", .float m)] ctorKw
+    (wfl_cons (wfLeaf_scalar hT) (wfl_cons (wfLeaf_scalar (scalar_float _)) (wfl_cons (wfLeaf_scalar hD)
+      (wfl_cons (wfLeaf_scalar (scalar_float _)) (wfl_cons (wfLeaf_scalar hmK) (wfl_cons (wfLeaf_scalar hmet)
+      (wfl_cons (wfLeaf_scalar hR) (wfl_cons (wfLeaf_array _ hsed) (wfl_cons (wfLeaf_scalar (scalar_float _))
+      wfl_nil))))))))) hk hkl hn
+  refine ⟨ch, src_star_write ww hww c attr part T D mK met R r m rsol msol sed hT hD hmK hmet hR h1 h2 h3 h4 h5 h6 h7 h8
+    hc1 hc2 hz1 hz2 q s _ hst, fun top htop => ?_⟩
+  rw [src_load_star wl top ch c ctorKw htop htype hr, hkw]
+
+/-- **write → load round trip of `Planet`**: `BasePlanet.write` creates one group `Planet`; `load_planet_from_hdf5` does
+    not read the stored `planet_type` but always calls the class the loader's world knows as `Planet` — so the round trip
+    holds for an instance of THAT class (`hnm`; an `Earth` / `Mars` instance is reloaded as a `Planet`), with mass, radius
+    and distance in Jupiter / AU units, the impact parameter, orbital period, albedo and transit time as keywords -/
+theorem src_planet_roundtrip (hnm : wl.dec "Planet" = c) (hk : ∀ kw ∈ ctorKw, kw ≠ "planet_type")
+    (imp per alb tt M R g : Value α) (pm pr pd mjup rjup au : α)
+    (himp : Scalar imp) (hper : Scalar per) (halb : Scalar alb) (htt : Scalar tt) (hM : Scalar M) (hR : Scalar R)
+    (hg : Scalar g)
+    (h1 : attr "_mass" = some (.float pm)) (h2 : attr "_radius" = some (.float pr))
+    (h3 : attr "_distance" = some (.float pd)) (h4 : attr "_impact" = some imp) (h5 : attr "orbitalPeriod" = some per)
+    (h6 : attr "albedo" = some alb) (h7 : attr "transitTime" = some tt) (h8 : attr "mass" = some M)
+    (h9 : attr "radius" = some R) (h10 : attr "gravity" = some g)
+    (hc1 : ww.consts "MJUP" = some mjup) (hc2 : ww.consts "RJUP" = some rjup) (hc3 : ww.consts "AU" = some au)
+    (hz1 : FloatLike.isZero mjup = false) (hz2 : FloatLike.isZero rjup = false) (hz3 : FloatLike.isZero au = false) :
+    ∃ ch, SrcC16.planet_write ww.ext (.obj (.comp c attr part)) (.obj (.group q)) s
+        = (.ok (.obj (.group (q ++ ["Planet"]))), s ++ flat q [("Planet", .group ch)]) ∧
+      ∀ top : List (String × Node α), top.lookup "Planet" = some (.group ch) →
+        SrcC16.load_planet wl.ext (.obj (.h5 top)) .none
+          = wl.call (.klass c ctorKw) []
+              (embKwL wl.enc (ctorKw.filterMap (fun kw =>
+                ([("planet_mass", Value.float (ww.div pm mjup)), ("planet_radius", .float (ww.div pr rjup)),
+                  ("planet_distance", .float (ww.div pd au)), ("impact_param", imp), ("orbital_period", per),
+                  ("albedo", alb), ("transit_time", tt), ("mass_kg", M), ("radius_m", R),
+                  ("surface_gravity", g)].lookup kw).map (fun v => (kw, v))))) := by
+  obtain ⟨ch, hst, htype, hr, hkw⟩ := typed_written wl "Planet" "planet_type" c
+    [("planet_mass", Value.float (ww.div pm mjup)), ("planet_radius", .float (ww.div pr rjup)),
+     ("planet_distance", .float (ww.div pd au)), ("impact_param", imp), ("orbital_period", per), ("albedo", alb),
+     ("transit_time", tt), ("mass_kg", M), ("radius_m", R), ("surface_gravity", g)] ctorKw
+    (wfl_cons (wfLeaf_scalar (scalar_float _)) (wfl_cons (wfLeaf_scalar (scalar_float _))
+      (wfl_cons (wfLeaf_scalar (scalar_float _)) (wfl_cons (wfLeaf_scalar himp) (wfl_cons (wfLeaf_scalar hper)
+      (wfl_cons (wfLeaf_scalar halb) (wfl_cons (wfLeaf_scalar htt) (wfl_cons (wfLeaf_scalar hM)
+      (wfl_cons (wfLeaf_scalar hR) (wfl_cons (wfLeaf_scalar hg) wfl_nil)))))))))) hk hkl hn
+  refine ⟨ch, src_planet_write ww hww c attr part imp per alb tt M R g pm pr pd mjup rjup au himp hper halb htt hM hR hg
+    h1 h2 h3 h4 h5 h6 h7 h8 h9 h10 hc1 hc2 hc3 hz1 hz2 hz3 q s _ hst, fun top htop => ?_⟩
+  rw [src_load_planet wl top ch c ctorKw htop hnm hr, hkw]
+
+/-- **write → load round trip of `SimplePressureProfile`**: number of layers, maximum and minimum pressure come back as
+    the constructor keywords `nlayers`, `atm_max_pressure`, `atm_min_pressure` (the stored `profile` array only if the
+    class takes a keyword of that name) -/
+theorem src_simplepressure_roundtrip (hk : ∀ kw ∈ ctorKw, kw ≠ "pressure_type") (nl pmax pmin : Value α)
+    (prof : Arr α) (hnl : Scalar nl) (hmax : Scalar pmax) (hmin : Scalar pmin) (hprof : (prof.shape != []) = true)
+    (h1 : attr "_nlayers" = some nl) (h2 : attr "profile" = some (.array prof))
+    (h3 : attr "_atm_max_pressure" = some pmax) (h4 : attr "_atm_min_pressure" = some pmin) :
+    ∃ ch, SrcC16.simplepressure_write ww.ext (.obj (.comp c attr part)) (.obj (.group q)) s
+        = (.ok (.obj (.group (q ++ ["Pressure"]))), s ++ flat q [("Pressure", .group ch)]) ∧
+      ∀ top : List (String × Node α), top.lookup "Pressure" = some (.group ch) →
+        SrcC16.load_pressure wl.ext (.obj (.h5 top)) .none
+          = wl.call (.klass c ctorKw) []
+              (embKwL wl.enc (ctorKw.filterMap (fun kw =>
+                ([("nlayers", nl), ("profile", .array prof), ("atm_max_pressure", pmax),
+                  ("atm_min_pressure", pmin)].lookup kw).map (fun v => (kw, v))))) := by
+  obtain ⟨ch, hst, htype, hr, hkw⟩ := typed_written wl "Pressure" "pressure_type" c
+    [("nlayers", nl), ("profile", .array prof), ("atm_max_pressure", pmax), ("atm_min_pressure", pmin)] ctorKw
+    (wfl_cons (wfLeaf_scalar hnl) (wfl_cons (wfLeaf_array _ hprof) (wfl_cons (wfLeaf_scalar hmax)
+      (wfl_cons (wfLeaf_scalar hmin) wfl_nil)))) hk hkl hn
+  refine ⟨ch, src_simplepressure_write ww hww c attr part nl pmax pmin prof hnl hmax hmin h1 h2 h3 h4 q s _ hst,
+    fun top htop => ?_⟩
+  rw [src_load_pressure wl top ch c ctorKw htop htype hr, hkw]
+
+/-- **write → load round trip of a `PressureProfile`** that does not override `write` -/
+theorem src_pressure_roundtrip (hk : ∀ kw ∈ ctorKw, kw ≠ "pressure_type") (nl : Value α) (prof : Arr α)
+    (hnl : Scalar nl) (hprof : (prof.shape != []) = true)
+    (h1 : attr "_nlayers" = some nl) (h2 : attr "profile" = some (.array prof)) :
+    ∃ ch, SrcC16.pressure_write ww.ext (.obj (.comp c attr part)) (.obj (.group q)) s
+        = (.ok (.obj (.group (q ++ ["Pressure"]))), s ++ flat q [("Pressure", .group ch)]) ∧
+      ∀ top : List (String × Node α), top.lookup "Pressure" = some (.group ch) →
+        SrcC16.load_pressure wl.ext (.obj (.h5 top)) .none
+          = wl.call (.klass c ctorKw) []
+              (embKwL wl.enc (ctorKw.filterMap (fun kw =>
+                ([("nlayers", nl), ("profile", Value.array prof)].lookup kw).map (fun v => (kw, v))))) := by
+  obtain ⟨ch, hst, htype, hr, hkw⟩ := typed_written wl "Pressure" "pressure_type" c
+    [("nlayers", nl), ("profile", .array prof)] ctorKw
+    (wfl_cons (wfLeaf_scalar hnl) (wfl_cons (wfLeaf_array _ hprof) wfl_nil)) hk hkl hn
+  refine ⟨ch, src_pressure_write ww hww c attr part nl prof hnl h1 h2 q s _ hst, fun top htop => ?_⟩
+  rw [src_load_pressure wl top ch c ctorKw htop htype hr, hkw]
+
+/-- **write → load round trip of `ConstantGas`**: the group is named like the molecule (`ww.enc mol`);
+    `load_gas_from_hdf5(loc, molecule)` with that name calls the class of the written name with `molecule_name` and
+    `mix_ratio` -/
+theorem src_constantgas_roundtrip (hk : ∀ kw ∈ ctorKw, kw ≠ "gas_type") (mol : List Nat) (mr : Value α)
+    (hmr : Scalar mr) (h1 : attr "molecule" = some (.str mol)) (h2 : attr "_molecule_name" = some (.str mol))
+    (h3 : attr "_mix_ratio" = some mr) :
+    ∃ ch, SrcC16.constantgas_write ww.ext (.obj (.comp c attr part)) (.obj (.group q)) s
+        = (.ok (.obj (.group (q ++ [ww.enc mol]))), s ++ flat q [(ww.enc mol, .group ch)]) ∧
+      ∀ top : List (String × Node α), top.lookup (ww.enc mol) = some (.group ch) →
+        SrcC16.load_gas wl.ext (.obj (.h5 top)) (.str (ww.enc mol)) .none
+          = wl.call (.klass c ctorKw) []
+              (embKwL wl.enc (ctorKw.filterMap (fun kw =>
+                ([("molecule_name", Value.str mol), ("mix_ratio", mr)].lookup kw).map (fun v => (kw, v))))) := by
+  obtain ⟨ch, hst, htype, hr, hkw⟩ := typed_written wl (ww.enc mol) "gas_type" c
+    [("molecule_name", Value.str mol), ("mix_ratio", mr)] ctorKw
+    (wfl_cons (wfLeaf_str _) (wfl_cons (wfLeaf_scalar hmr) wfl_nil)) hk hkl hn
+  refine ⟨ch, src_constantgas_write ww hww c attr part mol mr hmr h1 h2 h3 q s _ hst, fun top htop => ?_⟩
+  rw [src_load_gas wl top ch c ctorKw (ww.enc mol) htop htype hr, hkw]
+
+/-- **write → load round trip of `TwoLayerGas`** -/
+theorem src_twolayergas_roundtrip (hk : ∀ kw ∈ ctorKw, kw ≠ "gas_type") (mol : List Nat) (top' surf P sm : Value α)
+    (htop' : Scalar top') (hsurf : Scalar surf) (hP : Scalar P) (hsm : Scalar sm)
+    (h1 : attr "molecule" = some (.str mol)) (h2 : attr "_molecule_name" = some (.str mol))
+    (h3 : attr "mixRatioTop" = some top') (h4 : attr "mixRatioSurface" = some surf)
+    (h5 : attr "mixRatioPressure" = some P) (h6 : attr "mixRatioSmoothing" = some sm) :
+    ∃ ch, SrcC16.twolayergas_write ww.ext (.obj (.comp c attr part)) (.obj (.group q)) s
+        = (.ok (.obj (.group (q ++ [ww.enc mol]))), s ++ flat q [(ww.enc mol, .group ch)]) ∧
+      ∀ top : List (String × Node α), top.lookup (ww.enc mol) = some (.group ch) →
+        SrcC16.load_gas wl.ext (.obj (.h5 top)) (.str (ww.enc mol)) .none
+          = wl.call (.klass c ctorKw) []
+              (embKwL wl.enc (ctorKw.filterMap (fun kw =>
+                ([("molecule_name", Value.str mol), ("mix_ratio_top", top'), ("mix_ratio_surface", surf),
+                  ("mix_ratio_P", P), ("mix_ratio_smoothing", sm)].lookup kw).map (fun v => (kw, v))))) := by
+  obtain ⟨ch, hst, htype, hr, hkw⟩ := typed_written wl (ww.enc mol) "gas_type" c
+    [("molecule_name", Value.str mol), ("mix_ratio_top", top'), ("mix_ratio_surface", surf), ("mix_ratio_P", P),
+     ("mix_ratio_smoothing", sm)] ctorKw
+    (wfl_cons (wfLeaf_str _) (wfl_cons (wfLeaf_scalar htop') (wfl_cons (wfLeaf_scalar hsurf) (wfl_cons (wfLeaf_scalar hP)
+      (wfl_cons (wfLeaf_scalar hsm) wfl_nil))))) hk hkl hn
+  refine ⟨ch, src_twolayergas_write ww hww c attr part mol top' surf P sm htop' hsurf hP hsm h1 h2 h3 h4 h5 h6 q s _ hst,
+    fun top htop => ?_⟩
+  rw [src_load_gas wl top ch c ctorKw (ww.enc mol) htop htype hr, hkw]
+
+/-- **write → load round trip of `TwoPointGas`** -/
+theorem src_twopointgas_roundtrip (hk : ∀ kw ∈ ctorKw, kw ≠ "gas_type") (mol : List Nat) (top' surf : Value α)
+    (htop' : Scalar top') (hsurf : Scalar surf)
+    (h1 : attr "molecule" = some (.str mol)) (h2 : attr "_molecule_name" = some (.str mol))
+    (h3 : attr "mixRatioTop" = some top') (h4 : attr "mixRatioSurface" = some surf) :
+    ∃ ch, SrcC16.twopointgas_write ww.ext (.obj (.comp c attr part)) (.obj (.group q)) s
+        = (.ok (.obj (.group (q ++ [ww.enc mol]))), s ++ flat q [(ww.enc mol, .group ch)]) ∧
+      ∀ top : List (String × Node α), top.lookup (ww.enc mol) = some (.group ch) →
+        SrcC16.load_gas wl.ext (.obj (.h5 top)) (.str (ww.enc mol)) .none
+          = wl.call (.klass c ctorKw) []
+              (embKwL wl.enc (ctorKw.filterMap (fun kw =>
+                ([("molecule_name", Value.str mol), ("mix_ratio_top", top'),
+                  ("mix_ratio_surface", surf)].lookup kw).map (fun v => (kw, v))))) := by
+  obtain ⟨ch, hst, htype, hr, hkw⟩ := typed_written wl (ww.enc mol) "gas_type" c
+    [("molecule_name", Value.str mol), ("mix_ratio_top", top'), ("mix_ratio_surface", surf)] ctorKw
+    (wfl_cons (wfLeaf_str _) (wfl_cons (wfLeaf_scalar htop') (wfl_cons (wfLeaf_scalar hsurf) wfl_nil))) hk hkl hn
+  refine ⟨ch, src_twopointgas_write ww hww c attr part mol top' surf htop' hsurf h1 h2 h3 h4 q s _ hst,
+    fun top htop => ?_⟩
+  rw [src_load_gas wl top ch c ctorKw (ww.enc mol) htop htype hr, hkw]
+
+/-- **write → load round trip of `PowerGas`**: the profile type and exactly those coefficients that were not `None` come
+    back as keywords (a coefficient left to the automatic profile stays unset, so the reloaded profile recomputes it) -/
+theorem src_powergas_roundtrip (hk : ∀ kw ∈ ctorKw, kw ≠ "gas_type") (mol pt : List Nat) (al surf be ga : Value α)
+    (hal : al = .unsupported ∨ Scalar al) (hsurf : surf = .unsupported ∨ Scalar surf)
+    (hbe : be = .unsupported ∨ Scalar be) (hga : ga = .unsupported ∨ Scalar ga)
+    (h1 : attr "molecule" = some (.str mol)) (h2 : attr "_molecule_name" = some (.str mol))
+    (h3 : attr "_profile_type" = some (.str pt)) (h4 : attr "alpha" = some al) (h5 : attr "mixRatioSurface" = some surf)
+    (h6 : attr "beta" = some be) (h7 : attr "gamma" = some ga) :
+    ∃ ch, SrcC16.powergas_write ww.ext (.obj (.comp c attr part)) (.obj (.group q)) s
+        = (.ok (.obj (.group (q ++ [ww.enc mol]))), s ++ flat q [(ww.enc mol, .group ch)]) ∧
+      ∀ top : List (String × Node α), top.lookup (ww.enc mol) = some (.group ch) →
+        SrcC16.load_gas wl.ext (.obj (.h5 top)) (.str (ww.enc mol)) .none
+          = wl.call (.klass c ctorKw) []
+              (embKwL wl.enc (ctorKw.filterMap (fun kw =>
+                (([("molecule_name", Value.str mol), ("profile_type", .str pt)] ++
+                  present [("alpha", al), ("mix_ratio_surface", surf), ("beta", be), ("gamma", ga)]).lookup kw).map
+                  (fun v => (kw, v))))) := by
+  have hopt : ∀ e ∈ [("alpha", al), ("mix_ratio_surface", surf), ("beta", be), ("gamma", ga)],
+      e.2 = Value.unsupported ∨ Scalar e.2 := by
+    intro e he
+    simp only [List.mem_cons, List.not_mem_nil, or_false] at he
+    rcases he with rfl | rfl | rfl | rfl <;> assumption
+  obtain ⟨ch, hst, htype, hr, hkw⟩ := typed_written wl (ww.enc mol) "gas_type" c
+    ([("molecule_name", Value.str mol), ("profile_type", .str pt)] ++
+      present [("alpha", al), ("mix_ratio_surface", surf), ("beta", be), ("gamma", ga)]) ctorKw
+    (wfl_append (wfl_cons (wfLeaf_str _) (wfl_cons (wfLeaf_str _) wfl_nil))
+      (fun e he => wfLeaf_scalar (present_leaves _ hopt e he))) hk hkl hn
+  refine ⟨ch, src_powergas_write ww hww c attr part mol pt al surf be ga hal hsurf hbe hga h1 h2 h3 h4 h5 h6 h7 q s _ hst,
+    fun top htop => ?_⟩
+  rw [src_load_gas wl top ch c ctorKw (ww.enc mol) htop htype hr, hkw]
+
+/-- **write → load round trip of a contribution that stores nothing** (`Contribution.write`: `AbsorptionContribution`,
+    `RayleighContribution`): the group is named like the class and `load_contrib_from_hdf5(loc, name)` calls the class
+    the loader's world knows under that name (`hnm`: the same class) with no keyword -/
+theorem src_contribution_roundtrip (hnm : wl.dec (ww.enc c) = c) :
+    ∃ ch, SrcC16.contribution_write ww.ext (.obj (.comp c attr part)) (.obj (.group q)) s
+        = (.ok (.obj (.group (q ++ [ww.enc c]))), s ++ flat q [(ww.enc c, .group ch)]) ∧
+      ∀ top : List (String × Node α), top.lookup (ww.enc c) = some (.group ch) →
+        SrcC16.load_contrib wl.ext (.obj (.h5 top)) (.str (ww.enc c)) .none
+          = wl.call (.klass c ctorKw) []
+              (embKwL wl.enc (ctorKw.filterMap (fun kw =>
+                (([] : List (String × Value α)).lookup kw).map (fun v => (kw, v))))) := by
+  obtain ⟨ch, hst, hr, hkw⟩ := untyped_written wl (ww.enc c) c [] ctorKw wfl_nil hkl hn
+  refine ⟨ch, src_contribution_write ww hww c attr part q s _ hst, fun top htop => ?_⟩
+  rw [src_load_contrib wl top ch c ctorKw (ww.enc c) htop hnm hr, hkw]
+
+/-- **write → load round trip of `SimpleCloudsContribution`**: the cloud-top pressure comes back as `clouds_pressure` -/
+theorem src_simpleclouds_roundtrip (hnm : wl.dec (ww.enc c) = c) (P : Value α) (hP : Scalar P)
+    (h1 : attr "_cloud_pressure" = some P) :
+    ∃ ch, SrcC16.simpleclouds_write ww.ext (.obj (.comp c attr part)) (.obj (.group q)) s
+        = (.ok (.obj (.group (q ++ [ww.enc c]))), s ++ flat q [(ww.enc c, .group ch)]) ∧
+      ∀ top : List (String × Node α), top.lookup (ww.enc c) = some (.group ch) →
+        SrcC16.load_contrib wl.ext (.obj (.h5 top)) (.str (ww.enc c)) .none
+          = wl.call (.klass c ctorKw) []
+              (embKwL wl.enc (ctorKw.filterMap (fun kw =>
+                ([("clouds_pressure", P)].lookup kw).map (fun v => (kw, v))))) := by
+  obtain ⟨ch, hst, hr, hkw⟩ := untyped_written wl (ww.enc c) c [("clouds_pressure", P)] ctorKw
+    (wfl_cons (wfLeaf_scalar hP) wfl_nil) hkl hn
+  refine ⟨ch, src_simpleclouds_write ww hww c attr part P hP h1 q s _ hst, fun top htop => ?_⟩
+  rw [src_load_contrib wl top ch c ctorKw (ww.enc c) htop hnm hr, hkw]
+
+/-- **write → load round trip of `FlatMieContribution`** -/
+theorem src_flatmie_roundtrip (hnm : wl.dec (ww.enc c) = c) (mix bot top' : Value α) (hmix : Scalar mix)
+    (hbot : Scalar bot) (htop' : Scalar top') (h1 : attr "_mie_mix" = some mix)
+    (h2 : attr "_mie_bottom_pressure" = some bot) (h3 : attr "_mie_top_pressure" = some top') :
+    ∃ ch, SrcC16.flatmie_write ww.ext (.obj (.comp c attr part)) (.obj (.group q)) s
+        = (.ok (.obj (.group (q ++ [ww.enc c]))), s ++ flat q [(ww.enc c, .group ch)]) ∧
+      ∀ top : List (String × Node α), top.lookup (ww.enc c) = some (.group ch) →
+        SrcC16.load_contrib wl.ext (.obj (.h5 top)) (.str (ww.enc c)) .none
+          = wl.call (.klass c ctorKw) []
+              (embKwL wl.enc (ctorKw.filterMap (fun kw =>
+                ([("flat_mix_ratio", mix), ("flat_bottomP", bot), ("flat_topP", top')].lookup kw).map
+                  (fun v => (kw, v))))) := by
+  obtain ⟨ch, hst, hr, hkw⟩ := untyped_written wl (ww.enc c) c
+    [("flat_mix_ratio", mix), ("flat_bottomP", bot), ("flat_topP", top')] ctorKw
+    (wfl_cons (wfLeaf_scalar hmix) (wfl_cons (wfLeaf_scalar hbot) (wfl_cons (wfLeaf_scalar htop') wfl_nil))) hkl hn
+  refine ⟨ch, src_flatmie_write ww hww c attr part mix bot top' hmix hbot htop' h1 h2 h3 q s _ hst, fun top htop => ?_⟩
+  rw [src_load_contrib wl top ch c ctorKw (ww.enc c) htop hnm hr, hkw]
+
+/-- **write → load of `CIAContribution`**: `CIAContribution.write` creates the group named like the class holding the
+    pair names as ONE fixed-width string array `cia_pairs`; `load_contrib_from_hdf5` on it calls the class with what
+    `Output.loadKwargs` collects from that group.  (The stored array reads back as the list of the cells, `sCell` of the
+    names: the identity on names not ending in NUL.) -/
+theorem src_cia_roundtrip (hnm : wl.dec (ww.enc c) = c) (pairs : List (List Nat))
+    (h1 : attr "ciaPairs" = some (.list (pairs.map .str))) :
+    let g : List (String × Node α) := if pairs = [] then [] else [("cia_pairs", stringNode pairs)]
+    SrcC16.cia_write ww.ext (.obj (.comp c attr part)) (.obj (.group q)) s
+        = (.ok (.obj (.group (q ++ [ww.enc c]))), s ++ flat q [(ww.enc c, .group g)]) ∧
+      ∀ top : List (String × Node α), top.lookup (ww.enc c) = some (.group g) →
+        SrcC16.load_contrib wl.ext (.obj (.h5 top)) (.str (ww.enc c)) .none
+          = wl.call (.klass c ctorKw) [] (embKwL wl.enc (loadKwargs g ctorKw)) := by
+  intro g
+  have hst : storeThing (ww.enc c)
+      (.dict (if pairs = [] then [] else [("cia_pairs", Value.list (pairs.map .str))])) = .ok [(ww.enc c, .group g)] := by
+    cases pairs with
+    | nil => simp [g, storeThing, storeEntries]
+    | cons p ps =>
+      have hne : (p :: ps = []) = False := by simp
+      have hany : (List.map Value.str (p :: ps) : List (Value α)).any isStr = true := by simp [isStr]
+      have he : storeEntries [("cia_pairs", Value.list (List.map Value.str (p :: ps) : List (Value α)))]
+          = .ok [("cia_pairs", stringNode (p :: ps))] := by
+        simp only [storeEntries, storeThing, hany, if_true, stringList_strs]
+        rfl
+      simp only [g, hne, if_false, storeThing_dict, he]
+  refine ⟨src_cia_write ww hww c attr part pairs h1 q s _ hst, fun top htop => ?_⟩
+  refine src_load_contrib wl top g c ctorKw (ww.enc c) htop hnm ⟨hkl, hn, ?_⟩
+  intro kw hkw n hlk
+  cases pairs with
+  | nil => simp [g] at hlk
+  | cons p ps =>
+    have hne : (p :: ps = []) = False := by simp
+    simp only [g, hne, if_false, List.lookup_cons] at hlk
+    cases hb : (kw == "cia_pairs") with
+    | true =>
+      rw [hb] at hlk
+      simp only [Option.some.injEq] at hlk
+      subst hlk
+      rfl
+    | false =>
+      rw [hb] at hlk
+      simp at hlk
+
+end
 
 end roundtrip
 
